@@ -64,7 +64,7 @@ pub fn gen_plan(seed: u64) -> Plan {
         None
     };
     let misuse_at = r.below(acts.len());
-    let knobs = Knobs { hash_seed: r.next(), tie_break: None, max_height: None, crash_at: None, dense_reads: true, audit: true };
+    let knobs = Knobs { hash_seed: r.next(), tie_break: None, max_height: None, crash_at: None, dense_reads: true, audit: true, stop_on: String::new() };
     Plan { engine: "limits".into(), actions: acts.into_iter().map(Action::X).collect(), knobs, extra: serde_json::to_value(LimitsCfg { n, reconfigure, misuse, misuse_at }).unwrap() }
 }
 
